@@ -191,4 +191,41 @@ theorem parseCtx_stream (env : Env R) (hd : env.decrypt = none) (info : Dict R) 
       simpa [Nat.add_assoc] using this
     exact hs4.slice
 
+
+/-- `n g obj <stream object> endobj` -/
+theorem parseIndirectObject_stream (env : Env R) (hd : env.decrypt = none) (info : Dict R) (data txt : List UInt8)
+    (hsp : SpellsStream env.parseReal info data txt) (hwf : WFE info) (hnd : (keysOf info).Nodup)
+    (hlen : LengthIs env info data.length) {buf : Buf} (hsz : buf.size ≤ 2147483647)
+    (g0 a g1 b g2 g3 g4 rest : List UInt8) (id gen pos fuel : Nat) (hg0 : Gap g0)
+    (ha : NatTok a id) (hb : NatTok b gen) (hg1 : Gap g1) (hg1ne : g1 ≠ []) (hg2 : Gap g2) (hg2ne : g2 ≠ [])
+    (hid : id ≤ 18446744073709551615) (hgen : gen ≤ 18446744073709551615) (hg3 : Gap g3) (hg4 : Gap g4) (hg4ne : g4 ≠ [])
+    (h : Suffix buf pos (g0 ++ a ++ g1 ++ b ++ g2 ++ kwObj ++ g3 ++ txt ++ g4 ++ kwEndobj ++ rest))
+    (hbnd : Bnd rest) (hfuel : 2 + needE info ≤ fuel) (hdepth : 1 + vdepthE info ≤ maxDepth) :
+    ∃ dataPos, parseIndirectObject env buf fuel pos Flags.any =
+        .ok (((id, gen), streamAt env info (id, gen) dataPos data.length),
+          pos + (g0 ++ a ++ g1 ++ b ++ g2 ++ kwObj ++ g3 ++ txt ++ g4 ++ kwEndobj).length) ∧
+      slice buf dataPos (dataPos + data.length) = data := by
+  have htx : ∃ t', txt = 60 :: t' := by
+    obtain ⟨g1', ents, g2', eol, g3', rfl, _⟩ := hsp
+    exact ⟨_, rfl⟩
+  obtain ⟨t', ht'⟩ := htx
+  have hb3 : Bnd (g3 ++ txt ++ g4 ++ kwEndobj ++ rest) := by
+    cases g3 with
+    | nil => subst ht'; simp [Bnd]; decide
+    | cons c g3' => simpa using gap_bnd hg3 (by simp) (txt ++ g4 ++ kwEndobj ++ rest)
+  have hhead := parseObjHeader_spec g0 a g1 b g2 (g3 ++ txt ++ g4 ++ kwEndobj ++ rest) id gen pos hg0 ha hb hg1 hg1ne hg2
+    hg2ne hid hgen (by simpa using h) hb3
+  have h2 : Suffix buf (pos + (g0 ++ a ++ g1 ++ b ++ g2 ++ kwObj).length) (g3 ++ txt ++ (g4 ++ kwEndobj ++ rest)) := by
+    have := Suffix.drop (a := g0 ++ a ++ g1 ++ b ++ g2 ++ kwObj) (s := g3 ++ txt ++ (g4 ++ kwEndobj ++ rest)) (by simpa using h)
+    simpa using this
+  have h3 : Suffix buf (pos + (g0 ++ a ++ g1 ++ b ++ g2 ++ kwObj).length + g3.length + txt.length) (g4 ++ kwEndobj ++ rest) := by
+    have := Suffix.drop (a := g3 ++ txt) (by simpa using h2)
+    simpa [Nat.add_assoc] using this
+  obtain ⟨dataPos, hv, hdata⟩ := parseCtx_stream env hd info data txt hsp hwf hnd hlen hsz g3 (g4 ++ kwEndobj ++ rest) _ fuel
+    (id, gen) maxDepth hg3 h2 (by simpa using gap_bnd hg4 hg4ne (kwEndobj ++ rest)) hfuel hdepth
+  have he := nextExpect_regular g4 kwEndobj rest _ hg4 h3 (by decide) kw_endobj_regular hbnd
+  refine ⟨dataPos, ?_, hdata⟩
+  simp only [parseIndirectObject, hhead, Out.bind_ok, hv, he]
+  cases env.allowMissingEndobj <;> simp <;> omega
+
 end PdfLex
